@@ -12,7 +12,7 @@ fails/passes) before our checks were run against it with `VERIF_REPO=<worktree> 
 (equivalent to `git -C /repo apply patch.diff; ./check <id> quick; git -C /repo checkout -- .`).
 `patch-<name>-only.diff` files are the independent hunks of a change, each tested alone as well.
 `REGRESSION.md` is the latest run of every patch against the checks as they stand now
-(`tools/seeded_regress.py`). Suffixes: none/b = waves 1-3, x/y = wave 4, z = wave 5.
+(`tools/seeded_regress.py`). Suffixes: none/b = waves 1-3, x/y = wave 4, z = wave 5, w = 6, v = 7, u = 8, t = 9 (lifecycle and clean-up paths), s = 10 (less-travelled API), r = 11 (stale state).
 
 | id | change | needs | caught by (oracles) | missed at first? |
 |---|---|---|---|---|
